@@ -30,19 +30,19 @@ type raceCand struct {
 }
 
 type accessLog struct {
-	byCell map[*Value][]access
-	born   map[*Value]int // sequence number at which a cell was first seen (allocation proxy)
+	byCell map[interface{}][]access
+	born   map[interface{}]int
 	seq    int
-	names  map[*Value]string
+	names  map[interface{}]string
 }
 
 func newAccessLog() *accessLog {
-	return &accessLog{byCell: map[*Value][]access{}, born: map[*Value]int{}, names: map[*Value]string{}}
+	return &accessLog{byCell: map[interface{}][]access{}, born: map[interface{}]int{}, names: map[interface{}]string{}}
 }
 
-func (a *accessLog) add(in *Interp, p *Value, write, atomic bool, pos string) {
+func (a *accessLog) add(in *Interp, p interface{}, write, atomic bool, pos string) {
 	g := in.cur
-	if g.role == "" {
+	if g.role == "" || in.accPaused {
 		return
 	}
 	a.seq++
@@ -53,9 +53,16 @@ func (a *accessLog) add(in *Interp, p *Value, write, atomic bool, pos string) {
 	a.byCell[p] = append(a.byCell[p], access{role: g.role, g: g.id, write: write, atomic: atomic, locks: locks, pos: pos, seq: a.seq})
 }
 
-func (a *accessLog) note(in *Interp, p *Value, write bool, ins ssa.Instruction) {
+func (a *accessLog) note(in *Interp, p interface{}, write bool, ins ssa.Instruction) {
 	if in.cur.role == "" {
 		return
+	}
+	// only accesses made by library code count (harness code reads state to assert on it)
+	if f := ins.Parent(); f != nil {
+		n := in.prog.Fset.Position(ins.Pos()).Filename
+		if strings.Contains(n, "zz_verif_") || strings.Contains(n, "/zzverif/") {
+			return
+		}
 	}
 	a.add(in, p, write, false, in.pos(ins))
 }
@@ -96,7 +103,7 @@ func (a *accessLog) candidates(in *Interp) []raceCand {
 					continue
 				}
 				seen[k] = true
-				out = append(out, raceCand{Cell: "", A: fmt.Sprintf("%s %s", rw(x.write), x.pos), B: fmt.Sprintf("%s %s", rw(y.write), y.pos), RoleA: x.role, RoleB: y.role})
+				out = append(out, raceCand{Cell: fmt.Sprintf("%T", cellKey(a, accs)), A: fmt.Sprintf("%s %s", rw(x.write), x.pos), B: fmt.Sprintf("%s %s", rw(y.write), y.pos), RoleA: x.role, RoleB: y.role})
 			}
 		}
 	}
@@ -109,4 +116,13 @@ func rw(w bool) string {
 		return "write"
 	}
 	return "read"
+}
+
+func cellKey(a *accessLog, accs []access) interface{} {
+	for k, v := range a.byCell {
+		if len(v) > 0 && len(accs) > 0 && &v[0] == &accs[0] {
+			return k
+		}
+	}
+	return nil
 }
